@@ -26,6 +26,10 @@ CHECKS = {
    text="Helpers.tla describes ConvertString/readLength over byte-string forms (tag x length form x length octets present x content length class), the SID helpers, NewEntry ordering and every constructor / Mux registration method over sequences of option tokens (nil and foreign-family options included) with their two possible outcomes (value or error). TLC checks the design statements (WrapConverts, BeheraAtMostOne), emits all vectors (25k quick with <=2 options, 640k thorough with <=3), the harness calls the real functions under recover() (Request-based constructors inside a handler on a live connection, each response also written) and TLC (HelpersTrace) checks NoPanic, OutcomeConforms and ValueConforms on every observation.",
    note="Trusts: contents of byte strings are random per seed (the code does not branch on them); option values are one or two representatives per option.",
    technique="TLA+ spec Helpers.tla checked with TLC; TLC-generated call vectors executed on the real exported API; observations validated by TLC trace spec HelpersTrace"),
+"C04": dict(level=MC, design="DESIGN.md §3.4, §7 C04",
+   text="Resp.tla models building a response (constructor with options, setters) and writing it, several per request; TLC explores the builder state machine (TagOK, CtlsOnlyWhereSettable, WritesAppendOnly) and emits every constructor x every sequence of <=2 option tokens x every well-typed setter sequence plus multi-response scripts (39k quick, more thorough). A real handler interprets each script with the public API and writes; the harness's strict LDAPMessage parser reads the frames; TLC (RespTrace) checks one frame per Write with the request's message id, the tag, the fields that were set, entry attributes (map part unordered, AddAttribute part ordered) and controls against Build() of the spec.",
+   note="Trusts: data independence in string/number content beyond the boundary symbols; message ids chosen >= 5,000,000 so they never coincide with the per-connection request counter; unsupported options are treated as don't-care.",
+   technique="TLA+ spec Resp.tla model-checked with TLC; TLC-generated builder scripts executed in a real handler; frames parsed strictly and validated by TLC trace spec RespTrace"),
 }
 NOT_YET = "check not built yet (work in progress)"
 
